@@ -59,6 +59,7 @@ type vctx struct {
 	anchorErrs   []string
 	ieee         bool
 	topAct       *act
+	hvers        map[string]Term
 }
 
 func (c *vctx) abstracted(what string) {
